@@ -89,6 +89,14 @@ def special(rng):
         d = {'$repeat': {n: rng.randint(1, 2) for n in names}, 'v': '$"' + '-'.join('{$repeat:%s}' % n for n in names) + '"'}
         d.update(manykeys(rng, 5))
         return [('d', [], d)]
+    if rng.random() < 0.3:
+        # several keys that evaluate to the same string: whatever the result is, it must be the same every time
+        d = {'tier': 'web', 'region': 'eu', 'm': {'$"{tier}-{region}"': 1, 'web-eu': 2, '$"{tier}-eu"': 3, 'other': 4}}
+        if rng.random() < 0.5:
+            d['l'] = [{'$"{tier}"': 'a', 'web': 'b'}]
+        if rng.random() < 0.5:
+            d['r'] = {'$"k"': {'$repeat': 2, 'i': '$repeat'}}
+        return [('d', [], d)]
     m = manykeys(rng, rng.randint(10, 30))
     keys = list(m.keys())
     d = {'tpl': m, 'h': {'$merge': 'tpl', 'extra': 1}, 'l': [{'$merge': 'tpl.' + keys[0]}] if False else ['$merge:tpl.' + keys[0], '$"{tpl.%s}{tpl.%s}"' % (keys[1], keys[2])]}
@@ -108,7 +116,8 @@ def fixed_cases(tier):
          [['L0', [], {'cfg': {'name': 'svc', 'port': 8080, 'a': 1, 'b': 2, 'c': 3}}], ['L1', ['L0'], {'cfg': {'$replace': True, 'name': 'svc', 'port': 8080, 'z': 1}}]],
          [['d', [], {'$repeat': {'x': 2, 'y': 2}, 'v': '$"{$repeat:x}{$repeat:y}"'}]],
          [['d', [], {'width': '$"{$repeat.x}"'}]],
-         [['d', [], {'o1': {'$output': True, 'a': 1}, 'o2': {'$output': True, 'b': 2}, 'o3': [{'$output': True}, 1]}]]]
+         [['d', [], {'o1': {'$output': True, 'a': 1}, 'o2': {'$output': True, 'b': 2}, 'o3': [{'$output': True}, 1]}]],
+         [['d', [], {'tier': 'web', 'region': 'eu', 'm': {'$"{tier}-{region}"': 1, 'web-eu': 2, 'zz': 3}}]]]
     for p in P:
         for q in P:
             out.append({'src': 'fixed', 'prog': p, 'other': q, 'fmt': 'json', 'fresh': True})
